@@ -7,7 +7,7 @@ from witnesses import WITNESSES, corpus_for
 
 PID = "C01"
 COQ_TARGETS = cp.COQ_TARGETS + ["Proofs/CoveredDefs.vo"]
-KNOWN = ["D19", "D1", "D3", "D4", "D9", "D21"]
+KNOWN = ["D19", "D1", "D3", "D4", "D9", "D21", "D24"]
 
 
 def transparency_failures(scn, il=None):
@@ -27,6 +27,59 @@ def transparency_failures(scn, il=None):
         if not cp.same_outcome(line, raws[j], fl, fr):
             out.append((j, cp.outcome(line), cp.outcome(fl)))
     return out
+
+
+EFF_SWITCH = (1, 5, 3)      # atoms of LABREA / EFFECTS / DISABLED (core.RESERVED)
+
+
+def eff_switch(o):
+    """the value of LABREA.EFFECTS.DISABLED in dictionary o, as labrea reads it (absent = off)"""
+    x = o
+    for a in EFF_SWITCH:
+        if not isinstance(x, dict) or a not in x:
+            return False
+        x = x[a]
+    return bool(x)
+
+
+def hold_switch(o, val):
+    """copy of o with LABREA.EFFECTS.DISABLED held at val (removed when off)"""
+    o = dict(o)
+    lab = dict(o.get(1)) if isinstance(o.get(1), dict) else {}
+    eff = dict(lab.get(5)) if isinstance(lab.get(5), dict) else {}
+    if val:
+        eff[3] = True
+        lab[5] = eff
+        o[1] = lab
+    else:
+        eff.pop(3, None)
+        if eff:
+            lab[5] = eff
+        else:
+            lab.pop(5, None)
+        if lab:
+            o[1] = lab
+        else:
+            o.pop(1, None)
+    return o
+
+
+def has_effects(scn):
+    return any(d.get("effects") for d in scn["env"].values()) or \
+        any(t and t[0] == "comp" and t[2] for t in list(cp.sub_exprs(scn["exprs"])) + list(cp.sub_exprs(scn["env"])))
+
+
+def in_zone_d24(scn, j):
+    """D24: the failure at operation j is caused by the effects switch differing along the history -
+    it disappears when every earlier operation uses the failing operation's value of the switch"""
+    ops = scn["ops"]
+    if not has_effects(scn):
+        return False
+    sw = eff_switch(ops[j][4])
+    if all(eff_switch(op[4]) == sw for op in ops[:j]):
+        return False
+    held = dict(scn, ops=[(m, i, cc, lc, hold_switch(o, sw)) for (m, i, cc, lc, o) in ops[:j]] + [ops[j]])
+    return not any(jj == j for jj, _, _ in transparency_failures(held))
 
 
 def cached_ids_coherent(scn):
@@ -155,6 +208,8 @@ def run(ctx):
             finding = None
             if dirty and cp.agrees(il, ml, scn, upto=j):
                 finding = "D21" if lazy else cp.zone_of(scn)
+            elif cp.agrees(il, ml, scn, upto=j) and in_zone_d24(scn, j):
+                finding = "D24"
             if finding:
                 tagged[finding] = tagged.get(finding, 0) + 1
             violations.append(dict(desc="an evaluation on the long-lived (cached) graph differs from the cache-free evaluation of a fresh copy",
